@@ -233,12 +233,31 @@ func sleep(d time.Duration) { simrt.Sleep(d) }
 
 // quiesce stops faults, lets every deadline pass and evaluates the end-state
 // oracles; then closes every channel and waits for them to report closed.
+// settle sleeps d, counted from the moment traffic ceased: data queued inside the
+// library or the sockets before the faults stopped may still be trickling through a
+// slow link, and the calls it carries are not over yet. Bounded, for periodic traffic.
+func (w *World) settle(d time.Duration) {
+	sleep(d)
+	if w.PeriodicTraffic {
+		return
+	}
+	for waited := time.Duration(0); waited < 2*time.Minute; {
+		since := time.Since(w.Net.LastData)
+		if w.Net.LastData.IsZero() || since >= d {
+			break
+		}
+		w.Net.Fired["quiesce.extended"]++
+		sleep(d - since)
+		waited += d - since
+	}
+}
+
 func (w *World) quiesce(settle time.Duration, closeAll bool) {
 	w.QuiesceStarted = true
 	for _, l := range w.Net.Links {
 		l.Heal()
 	}
-	sleep(settle)
+	w.settle(settle)
 	w.event("quiesce", "after %v", settle)
 	w.checkQuiescent()
 	w.checkPools(w.NoFault)
